@@ -140,6 +140,33 @@ def _unquote_tla_string(s):
     return "".join(out)
 
 
+def apalache_inductive(module, ind_inv, cinit="ConstInit", next_="NextA", init="CInit", expect_error=False, timeout=600):
+    """Unbounded check with Apalache: ind_inv holds initially (length 0 from init) and is preserved by one step from ANY
+    state satisfying it (length 1 from ind_inv).  expect_error: the step check must fail (vacuity guard on a spec mutant)."""
+    md = tempfile.mkdtemp(prefix="rwsv-apa-")
+    t = time.time()
+    try:
+        def run(args):
+            cmd = ["apalache-mc", "check", "--out-dir=" + md, "--cinit=" + cinit, "--next=" + next_] + args + [os.path.join(SPEC, module + ".tla")]
+            e = dict(os.environ)
+            e.pop("JAVA_TOOL_OPTIONS", None)
+            p = subprocess.run(cmd, cwd=md, env=e, stdout=subprocess.PIPE, stderr=subprocess.STDOUT, text=True, timeout=timeout)
+            ok = "The outcome is: NoError" in p.stdout
+            err = "The outcome is: Error" in p.stdout
+            if not ok and not err:
+                raise ToolError("apalache-mc gave no verdict on %s:\n%s" % (module, p.stdout[-2000:]))
+            return ok
+        if not expect_error:
+            if not run(["--init=" + init, "--inv=" + ind_inv, "--length=0"]):
+                raise ToolError("Apalache: %s!%s does not hold initially (the specification is refuted)" % (module, ind_inv))
+        step = run(["--init=" + ind_inv, "--inv=" + ind_inv, "--length=1"])
+        if step == expect_error:
+            raise ToolError("Apalache: %s!%s %s (cinit %s)" % (module, ind_inv, "is inductive although the variant must be refuted" if expect_error else "is not inductive", cinit))
+        log("[apalache] %s %s with %s: %s, %.1fs" % (module, ind_inv, cinit, "refuted as required" if expect_error else "inductive (unbounded)", time.time() - t))
+    finally:
+        shutil.rmtree(md, ignore_errors=True)
+
+
 def run_tlc(module, cfg=None, workers=4, timeout=900, env=None, simulate=None, depth=None,
             heap="4g", stack="64m", deque=False, coverage=False, seed_arg=None, extra=None,
             case_sink=None, spec_dir=None):
